@@ -112,7 +112,7 @@ func c18(c *Ctx) {
 		var exits []ssa.Instruction
 		for _, b := range f.Blocks {
 			for _, in := range b.Instrs {
-				if ret, ok := an.AsReturn(in); ok && len(ret.Results) == 2 && an.IsNilConst(an.RetVal(ret, 0)) && an.IsNilConst(an.RetVal(ret, 1)) {
+				if ret, ok := an.AsReturn(in); ok && len(ret.Results) == 2 && an.MayBeNilConst(an.RetVal(ret, 0)) && an.MayBeNilConst(an.RetVal(ret, 1)) {
 					exits = append(exits, in)
 				}
 			}
@@ -404,7 +404,7 @@ func c18Validate(c *Ctx, v *ssa.Function, tr *an.Tracer) {
 	var nilRets []ssa.Instruction
 	for _, b := range v.Blocks {
 		for _, in := range b.Instrs {
-			if ret, ok := an.AsReturn(in); ok && len(ret.Results) == 1 && an.IsNilConst(an.RetVal(ret, 0)) {
+			if ret, ok := an.AsReturn(in); ok && len(ret.Results) == 1 && an.MayBeNilConst(an.RetVal(ret, 0)) {
 				nilRets = append(nilRets, ret)
 			}
 		}
@@ -550,24 +550,10 @@ func (c *Ctx) errorsNotDropped(rule string, f *ssa.Function) int {
 			continue
 		}
 		n++
-		seen := map[*ssa.BasicBlock]bool{}
 		var bad []string
-		var walk func(b *ssa.BasicBlock)
-		walk = func(b *ssa.BasicBlock) {
-			for i, s := range b.Succs {
-				if cut[an.Edge{From: b, Succ: i}] || seen[s] {
-					continue
-				}
-				seen[s] = true
-				for _, in := range s.Instrs {
-					if ret, ok := an.AsReturn(in); ok && len(ret.Results) > 0 && an.IsNilConst(an.RetVal(ret, len(ret.Results)-1)) {
-						bad = append(bad, "the return at "+c.pos(ret.Pos())+" reports success although "+shortCallee(cs.Name)+" has failed")
-					}
-				}
-				walk(s)
-			}
+		for _, ret := range an.NilReturnsAfterFailure(f, call.Block(), sameErr, cut) {
+			bad = append(bad, "the return at "+c.pos(ret.Pos())+" reports success although "+shortCallee(cs.Name)+" has failed")
 		}
-		walk(call.Block())
 		key := an.ShortName(f) + "/" + shortCallee(cs.Name)
 		if why, ok := absorbedErrors[key]; ok && len(bad) > 0 {
 			r.Hold(rule, sprintf("error-kept:%s#%d", key, n), c.pos(cs.Pos()), "absorbed on purpose: "+why)
